@@ -1,0 +1,6 @@
+//go:build !verif
+
+package object
+
+// Verification hooks are compiled in with the build tag "verif" only
+// (see verif_on.go).
